@@ -279,4 +279,5 @@ MUTANTS = [
     ("_padinfo2: little-endian mask shifted by one", B, "        bits = 15 if self.big else (15 << 2)", "        bits = 15 if self.big else (15 << 1)", "refute", "repair-unused"),
     ("_padinfo3: big-endian engines clear one bit only", B, "        bits = 3 if self.big else (3 << 4)", "        bits = 1 if self.big else (3 << 4)", "refute", "repair-unused"),
     ("check_repair_unused: length 1 mod 4 returned unchanged", B, "        elif not tail:\n            return False, source\n        else:\n            raise ValueError(\"source length must != 1 mod 4\")", "        else:\n            return False, source", "refute", "repair-unused"),
+    ("libpass ab64_decode: '.' not mapped", "libpass/_utils/deprecated.py", "    return b64s_decode(data.replace(b\".\", b\"+\"))", "    return b64s_decode(data)", "refute", "ab64_decode.libpass"),
 ]
